@@ -14,7 +14,7 @@ RULE = ("seeded scenarios with one observed task (payload from sleeps, postponem
         "distinct tokens. Task.status is sampled before every activation. Non-trivial = the "
         "cancel was delivered inside the payload or prevented its start; distinct = distinct "
         "(observed-task event sequence, awaiter results, fault positions).")
-BUDGET = {"quick": {"cases": 300, "wall_s": 100, "chunk": 3, "per_group": 60},
+BUDGET = {"quick": {"cases": 1200, "wall_s": 100, "chunk": 3, "per_group": 60},
           "thorough": {"cases": 8000, "wall_s": 1500, "chunk": 5, "per_group": 500}}
 ASSUMPTIONS = ["each faulted run is compared with a fault-free twin run of the same scenario "
                "(bystanders and parent must behave identically)"]
@@ -94,7 +94,9 @@ def generate(rng, tier):
     for i in range(rng.randint(0, 4)):
         ops = []
         r = rng.random()
-        if r < 0.4:
+        if r < 0.25:
+            pass                      # awaits while the task may still be CREATED
+        elif r < 0.5:
             ops.append({"op": "postpone", "k": rng.randint(1, 2)})
         elif r < 0.9:
             ops.append({"op": "sleep", "d": rng.choice(DELAYS + [3, 6])})
@@ -267,6 +269,20 @@ def check(rec, twin=None):
         if later:
             bad("cancel-ignored", "t was cancelled at %r (tick %d) but still acted at %r: %r"
                 % (first_live["time"], first_live["tick"], later[0][2], later[0][4]))
+    # every awaiter is served once the task is done
+    if final in ("SUCCESS", "FAILED", "CANCELLED") and rec.outcome == ("ok",):
+        waiting = {}
+        for ev in rec.trace:
+            if ev[4] in ("await_task+", "await_done+") and ev[5] == "t":
+                waiting[ev[3]] = ev
+            elif ev[4] in ("await_task-", "await_task.exc", "await_task!", "await_done-") \
+                    and ev[5] == "t":
+                waiting.pop(ev[3], None)
+            elif ev[4] == "exc":
+                waiting.pop(ev[3], None)
+        for actor, ev in waiting.items():
+            bad("awaiter-never-resumed", "%s awaits t since t=%r (tick %d); t is %s but the "
+                "awaiter was never resumed" % (actor, ev[2], ev[0], final))
     # done-waiters
     for ev in rec.trace:
         if ev[4] == "await_done-" and ev[5] == "t" and ev[6] in ("CREATED", "RUNNING"):
